@@ -17,7 +17,7 @@ ASSUMPTIONS = ["masks are bool or 0/1 integer numpy arrays of length 4^k; thresh
 
 def mask_array(bits, as_bool):
     import numpy
-    return numpy.array(bits, dtype=bool if as_bool else int)
+    return gens.pooled(numpy.array(bits, dtype=bool if as_bool else int), "mask")
 
 
 def described_set(description, n):
